@@ -27,6 +27,8 @@ reaches the rules in the same shape:
                                       not read after the loop)
   K10 for x in (a, b): BODY       ->  BODY[a]; BODY[b]  (names only, short
                                       straight-line body)
+  K15 map(f, X)                   ->  (f(m) for m in X)  (f a name; and
+                                      list(map(f, X)) -> [f(m) for m in X])
   K9  t = delayed(f); t(x)        ->  delayed(f)(x)     (t bound once and
                                       used only as a callee)
 
@@ -806,6 +808,35 @@ class Canon(ast.NodeTransformer):
                 node.keywords = [k for k in node.keywords
                                  if k.arg != "start"]
                 self.applied["K5"] += 1
+        # K15  map(f, X) -> (f(m) for m in X);  list(map(f, X)) -> [f(m) ...]
+        if isinstance(node.func, ast.Name) and node.func.id in (
+                "list", "tuple", "set") and len(node.args) == 1 and \
+                not node.keywords and isinstance(
+                    node.args[0], ast.GeneratorExp) and getattr(
+                        node.args[0], "_k15", False) and \
+                node.func.id == "list":
+            g = node.args[0]
+            new = ast.copy_location(
+                ast.ListComp(elt=g.elt, generators=g.generators), node)
+            return new
+        if isinstance(node.func, ast.Name) and node.func.id == "map" and \
+                len(node.args) == 2 and not node.keywords and isinstance(
+                    node.args[0], (ast.Name, ast.Attribute)) and not any(
+                        isinstance(a, ast.Starred) for a in node.args):
+            var = f"_m{getattr(node, 'lineno', 0)}_" \
+                  f"{getattr(node, 'col_offset', 0)}"
+            elt = ast.Call(func=node.args[0],
+                           args=[ast.Name(id=var, ctx=ast.Load())],
+                           keywords=[])
+            gen = ast.comprehension(
+                target=ast.Name(id=var, ctx=ast.Store()),
+                iter=node.args[1], ifs=[], is_async=0)
+            new = ast.GeneratorExp(elt=elt, generators=[gen])
+            ast.copy_location(new, node)
+            ast.fix_missing_locations(new)
+            new._k15 = True
+            self.applied["K15"] = self.applied.get("K15", 0) + 1
+            return new
         return node
 
 
